@@ -31,10 +31,13 @@ const (
 	sD             // DeleteRecords(p0, logStart+1)
 	sF             // read_uncommitted fetch through incremental fetch session 0
 	sG             // read_committed fetch through incremental fetch session 1
+	sT3            // third transactional producer: only in the three-producer pass
+	sC3
+	sA3
 	nSym
 )
 
-var symName = [nSym]string{"I", "R", "O", "P", "Q", "T1", "T2", "C1", "A1", "C2", "A2", "X", "D", "F", "G"}
+var symName = [nSym]string{"I", "R", "O", "P", "Q", "T1", "T2", "C1", "A1", "C2", "A2", "X", "D", "F", "G", "T3", "C3", "A3"}
 
 func histString(h []sym) string {
 	var sb strings.Builder
@@ -69,14 +72,15 @@ const (
 	errOOOSN  = 45   // OUT_OF_ORDER_SEQUENCE_NUMBER
 	bigBytes  = 1 << 20
 	noProd    = -1
+	nProd     = 4 // 0 idempotent, 1..3 transactional
 	pending   = 0
 	committed = 1
 	aborted   = 2
 )
 
 var (
-	txids      = [3]string{"", "c32-tx1", "c32-tx2"}
-	txTimeouts = [3]int32{0, 4000, 9000} // chosen so that two expiries never coincide with 6s ticks
+	txids      = [nProd]string{"", "c32-tx1", "c32-tx2", "c32-tx3"}
+	txTimeouts = [nProd]int32{0, 4000, 9000, 14000} // distinct residues mod the 6s tick: two expiries never coincide
 )
 
 // ---------------------------------------------------------------------------
@@ -87,7 +91,7 @@ var (
 type mbatch struct {
 	base   int64
 	n      int32
-	prod   int8 // -1 plain, 0 idempotent, 1/2 transactional producers
+	prod   int8 // -1 plain, 0 idempotent, 1..3 transactional producers
 	txnl   bool
 	ctrl   bool
 	commit bool  // control batches only
@@ -147,7 +151,7 @@ type model struct {
 	now     int64
 	step    int
 	parts   [2]mpart
-	prods   [3]mprod
+	prods   [nProd]mprod
 	outcome []uint8
 	idem    struct {
 		ok   bool
@@ -164,7 +168,7 @@ type model struct {
 
 type coverage struct {
 	SessOmitted, SessIncluded, SessIncr int64
-	RcAbortedHidden                    int64
+	RcAbortedHidden                     int64
 }
 
 func (m *model) clone() *model {
@@ -179,7 +183,7 @@ func (m *model) clone() *model {
 func (m *model) lso(p int) int64 {
 	l := m.parts[p].hwm
 	if p == 0 {
-		for k := 1; k <= 2; k++ {
+		for k := 1; k < nProd; k++ {
 			if pr := &m.prods[k]; pr.open && pr.first >= 0 && pr.first < l {
 				l = pr.first
 			}
@@ -196,8 +200,10 @@ func (m *model) enabled(s sym) bool {
 		return m.prods[1].open
 	case sC2, sA2:
 		return m.prods[2].open
+	case sC3, sA3:
+		return m.prods[3].open
 	case sX:
-		return m.prods[1].open || m.prods[2].open
+		return m.prods[1].open || m.prods[2].open || m.prods[3].open
 	case sD:
 		return m.parts[0].start+1 <= m.parts[0].hwm
 	}
@@ -539,6 +545,12 @@ func (m *model) exec(s sym, h *harness) {
 		m.doEnd(h, 2, true)
 	case sA2:
 		m.doEnd(h, 2, false)
+	case sT3:
+		m.doTxnProduce(h, 3)
+	case sC3:
+		m.doEnd(h, 3, true)
+	case sA3:
+		m.doEnd(h, 3, false)
 	case sX:
 		m.doTick(h)
 	case sD:
@@ -740,7 +752,7 @@ func (m *model) doTick(h *harness) {
 	for {
 		best := 0
 		var bestAt int64
-		for k := 1; k <= 2; k++ {
+		for k := 1; k < nProd; k++ {
 			pr := &m.prods[k]
 			if !pr.open {
 				continue
